@@ -139,7 +139,7 @@ func runRangeTask(r *vrep.Report, u *uni.Universe, c *uni.ClientStore, lay *layo
 	if failed {
 		r.Count("runs_with_failing_handler", 1)
 		if err == nil {
-			r.Violate("rangetask:failure-not-reported", fmt.Sprintf("%s: the handler failed on a sub-range but RunOnRange returned nil", cs), detail)
+			viol(r, cs.Backend, "rangetask:failure-not-reported", fmt.Sprintf("%s: the handler failed on a sub-range but RunOnRange returned nil", cs), detail)
 		}
 	} else {
 		if err != nil {
@@ -147,7 +147,7 @@ func runRangeTask(r *vrep.Report, u *uni.Universe, c *uni.ClientStore, lay *layo
 			return
 		}
 		if sig, msg := checkCover(got, cs.Start, cs.End); sig != "" {
-			r.Violate("rangetask:cover:"+sig, fmt.Sprintf("%s: %s", cs, msg), detail)
+			viol(r, cs.Backend, "rangetask:cover:"+sig, fmt.Sprintf("%s: %s", cs, msg), detail)
 		}
 		if cs.End == "" {
 			r.Count("runs_unbounded_end", 1)
@@ -160,10 +160,10 @@ func runRangeTask(r *vrep.Report, u *uni.Universe, c *uni.ClientStore, lay *layo
 		}
 	}
 	if runner.CompletedRegions() != sumCompleted {
-		r.Violate("rangetask:stat:completed", fmt.Sprintf("%s: CompletedRegions()=%d, the handlers reported %d in total", cs, runner.CompletedRegions(), sumCompleted), detail)
+		viol(r, cs.Backend, "rangetask:stat:completed", fmt.Sprintf("%s: CompletedRegions()=%d, the handlers reported %d in total", cs, runner.CompletedRegions(), sumCompleted), detail)
 	}
 	if runner.FailedRegions() != sumFailed {
-		r.Violate("rangetask:stat:failed", fmt.Sprintf("%s: FailedRegions()=%d, the handlers reported %d in total", cs, runner.FailedRegions(), sumFailed), detail)
+		viol(r, cs.Backend, "rangetask:stat:failed", fmt.Sprintf("%s: FailedRegions()=%d, the handlers reported %d in total", cs, runner.FailedRegions(), sumFailed), detail)
 	}
 	if len(got) > 1 || failed {
 		r.Distinct(fmt.Sprintf("%s|regions=%d|startUnb=%v|endUnb=%v|rpt=%d|conc=%d|fail=%v|split=%v|n=%d", cs.Backend, cs.Regions, cs.Start == "", cs.End == "", cs.RPT, cs.Conc, cs.FailAt != 0, cs.SplitAt != 0, len(got)))
